@@ -13,7 +13,7 @@ Report(r) ==
   ELSE LET exp == Compile(r.ast, r.fl)
            got == Skeleton(r.progs.noopt)
            ok == got = exp.code /\ r.progs.noopt.loops = exp.loops /\ r.progs.noopt.groups = r.ng
-       IN /\ ok \/ PrintT("J " \o ToJson([kind |-> "compile", id |-> r.rid, exp |-> exp.code, got |-> got,
+       IN /\ ok \/ PrintT("J " \o ToJson([kind |-> "emit", id |-> r.rid, exp |-> exp.code, got |-> got,
                                             loops |-> <<exp.loops, r.progs.noopt.loops>>, groups |-> <<r.ng, r.progs.noopt.groups>>]))
           /\ PrintT("J " \o ToJson([kind |-> "compilestat", id |-> r.rid, judged |-> TRUE, ok |-> ok]))
 
